@@ -18,7 +18,7 @@ CLAIMED = {
          T2T + 'layout-relation oracle'),
  'C06': ('4 C06', 'Lean theorems: longest match at every offset, ordinary characters are one-character text tokens, the documented table entries are present in the table translated from /repo (decide). The end-to-end fixed point / replacement is checked exhaustively on short strings and on random prose against an independent reference.',
          T2T + 'exhaustive short strings + reference longest-match'),
- 'C07': ('4 C07', 'Lean theorems: scanner, blank-line removal and language splitter terminate and never exhaust their measure. Absence of unhandled exceptions in the expander is checked on the implementation (prefixes, token deletions, token soup, truncated argument shapes of every built-in macro) and by outcome correspondence with the model, in which every Python exception site is an explicit crash value.',
+ 'C07': ('4 C07 and 10.2', 'Lean theorem C07_tex2txt_no_crash(_current): in the model every Python expression that can raise (index, key, [-1]/[0] of a possibly empty list; 31 sites) is an explicit crash value; for every source, option record, file system and fuel the whole filter model never reaches one, except the three sites of allowedCrash (two markers of the unmodelled cleveref package, cap_first on an empty text token: open obligation named in the theorem statement). Proved by the same induction on fuel as C01, with table facts decided by the kernel on the tables translated from /repo. Scanner, blank-line removal and language splitter terminate and never exhaust their measure. Termination of the expander is not proved (fuel). The implementation is checked on prefixes, token deletions, token soup, every built-in macro by signature and with truncated argument shapes, long lists, and by outcome correspondence with the model.',
          T2T + 'malformed-input streams on the implementation'),
  'C08': ('4 C08', 'Lean theorems: latex_error returns the complete mark, fixed, first token at the problem position, in range also at the end of the text; line/column arithmetic; the scanner passes the complete mark on. Diagnostic position, mark position and conservation of later text are checked by fault injection; silence on well-formed generated documents.',
          T2T + 'fault injection'),
